@@ -99,11 +99,19 @@ def register_cells(ctx: Ctx, rule: str) -> None:
         ok = defs.get("node_keys") == [f"[{n_}.bridged_form] if {n_} else self._registry.keys()"]
         loops = [l for l in ast.walk(f.node) if isinstance(l, ast.For)]
         rets = [r for r in ast.walk(f.node) if isinstance(r, ast.Return)]
+        from .. import semtab
+
+        body = semtab.strip(f.node.body)
+        top = [l for l in body if isinstance(l, ast.For)]
         if name == "get_workers":
-            aug = [s for s in ast.walk(f.node) if isinstance(s, ast.AugAssign)]
-            ok = ok and len(loops) == 1 and ast.unparse(loops[0].iter) == "node_keys" and len(aug) == 1 and isinstance(aug[0].op, ast.BitOr) \
-                and ast.unparse(aug[0].value) == f"{{*self._registry.get({loops[0].target.id}, {{}}).keys()}}" \
-                and defs.get("worker_keys") == ["set()"] and len(rets) == 1 and ast.unparse(rets[0].value) == "worker_keys"
+            why = ""
+            if len(top) != 1 or ast.unparse(top[0].iter) != "node_keys" or not isinstance(top[0].target, ast.Name):
+                why = "not one loop over node_keys"
+            else:
+                got = semtab.split_gets(semtab.block_table(top[0].body, ("worker_keys",), {top[0].target.id: "NK"}))
+                want = semtab.split_gets(semtab.reference_table("worker_keys |= {*self._registry.get(NK, {}).keys()}", ("worker_keys",)))
+                why = semtab.mismatch(got, want) or ""
+            ok = ok and not why and defs.get("worker_keys") == ["set()"] and len(rets) == 1 and ast.unparse(rets[0].value) == "worker_keys"
             what = "get_workers(node) = keys of the node's cell dictionary (all nodes if none given)"
         else:
             w_ = f.params()[2]
